@@ -294,7 +294,7 @@ pub fn property() -> Property {
         ),
         prop_family(
             "programs",
-            20_000,
+            60_000,
             800_000,
             |_| {
                 let cfg = GenCfg { max_blocks: 12, ..GenCfg::C03.with_input() };
@@ -304,7 +304,7 @@ pub fn property() -> Property {
         ),
         prop_family(
             "def-free-programs",
-            10_000,
+            30_000,
             400_000,
             |_| {
                 let cfg = GenCfg { max_blocks: 12, defs_first: true, ..GenCfg::C03.with_input() };
@@ -312,7 +312,7 @@ pub fn property() -> Property {
             },
             check,
         ),
-        prop_family("long-lines", 6_000, 200_000, |_| long_line_case(), check),
+        prop_family("long-lines", 15_000, 200_000, |_| long_line_case(), check),
     ];
     Property {
         id: "C09",
